@@ -69,7 +69,7 @@ def main():
             print("apply to /repo failed", out); return 2
         for c in checks:
             t0 = time.time()
-            rc, out = sh(f"./check {c} --tier quick", cwd="/verif", timeout=3600)
+            rc, out = sh(f"./check {c} --tier quick", cwd=os.environ.get("VERIF_ROOT", "/verif"), timeout=3600)
             vio = [l for l in out.split("\n") if l.startswith("VIOLATION")]
             caught[c] = {"rc": rc, "violations": vio[:3], "s": round(time.time() - t0)}
     finally:
